@@ -63,3 +63,18 @@ Theorem C02_centroid_is_majority : forall fexp D cfg0 ops,
             scent s = map (fun k => sn s <=? 2 * k) (colsum (nfeat st) (map D (sids s))))
          (sorted_leaves st).
 Proof. exact reported_centroid_is_majority. Qed.
+
+(* ---- caller-supplied labels (fit(X, reinsert_indices=...)): Proofs/BirchLabels2.v ----
+   [ops_data_l]: the rows given to a fit are D of THEIR labels (given or default) and the X of a
+   refine returns D(label) for every label in the tree *)
+From BB Require Import Proofs.BirchLabels Proofs.BirchLabels2.
+Theorem C02_exact_labels : forall fexp D cfg0 ops,
+  2 <= c_bf cfg0 -> ops_wf_l fexp (init cfg0) ops -> ops_perms_ok fexp (init cfg0) ops ->
+  ops_data_l fexp D (init cfg0) ops ->
+  let st := run fexp cfg0 ops in
+  Forall (fun s => sls s = colsum (nfeat st) (map D (sids s)) /\
+                   sn s = zlen (sids s) /\
+                   scent s = centroid_fpv (sls s) (sn s) /\
+                   sw s = minw (sn s)) (sorted_leaves st).
+Proof. exact run_reported_sums_l. Qed.
+Example C02_labels_nonvacuous := labels2_data_applied.
